@@ -11,6 +11,7 @@ import (
 	"encoding/json"
 	"flag"
 	"fmt"
+	"io"
 	"os"
 	"os/exec"
 	"path/filepath"
@@ -131,12 +132,24 @@ func parent(cfg engine.Config, workers int, evidencePath, replayDir, knownPath s
 			ctx, cancel := context.WithTimeout(context.Background(), limit)
 			defer cancel()
 			cmd := exec.CommandContext(ctx, cfg.Self, args...)
-			cmd.Stderr = os.Stderr
+			var eb tailBuffer
+			cmd.Stderr = io.MultiWriter(os.Stderr, &eb)
 			cmd.Env = append(os.Environ(), "GOMAXPROCS=2")
 			if err := cmd.Run(); err != nil {
 				mu.Lock()
+				defer mu.Unlock()
+				// a worker brought down from a goroutine that the code under test started (no caller can recover a
+				// panic there; the unchanged library starts none) is a finding; anything else is machinery trouble
+				if first, ok := engine.CrashVerdict(eb.String()); ok && ctx.Err() == nil {
+					sc, _ := json.Marshal(engine.WorkerCrash{Kind: "worker-crash", Prop: cfg.Prop, Tier: cfg.Tier, Seed: cfg.Seed, Shard: i, Shards: workers})
+					r := engine.NewShardResult()
+					r.Violations = append(r.Violations, engine.Violation{Property: cfg.Prop, Class: "process-crash",
+						Signature: cfg.Prop + " process-crash in a goroutine started by the library",
+						Detail:    "worker " + strconv.Itoa(i) + " of " + strconv.Itoa(workers) + " died: " + first + "\n" + eb.String(), Scenario: sc})
+					total.Merge(r)
+					return
+				}
 				failed = true
-				mu.Unlock()
 				fmt.Fprintf(os.Stderr, "simcheck: worker %d: %v\n", i, err)
 				return
 			}
@@ -196,4 +209,35 @@ func replay(cfg engine.Config, file, knownPath string) int {
 	fmt.Printf("REPLAY property=%s result=violation signature=%q (%s as recorded)\n%s\n", rf.Property, v.Signature, same, strings.TrimSpace(v.Detail))
 	fmt.Printf("VIOLATION property=%s replay=%s\n", rf.Property, file)
 	return 1
+}
+
+// tailBuffer keeps the first 16 KiB and the last 16 KiB of what is written to it.
+type tailBuffer struct {
+	mu         sync.Mutex
+	head, tail []byte
+}
+
+func (b *tailBuffer) Write(p []byte) (int, error) {
+	b.mu.Lock()
+	defer b.mu.Unlock()
+	if room := 16384 - len(b.head); room > 0 {
+		if room > len(p) {
+			room = len(p)
+		}
+		b.head = append(b.head, p[:room]...)
+		p2 := p[room:]
+		b.tail = append(b.tail, p2...)
+	} else {
+		b.tail = append(b.tail, p...)
+	}
+	if len(b.tail) > 16384 {
+		b.tail = b.tail[len(b.tail)-16384:]
+	}
+	return len(p), nil
+}
+
+func (b *tailBuffer) String() string {
+	b.mu.Lock()
+	defer b.mu.Unlock()
+	return string(b.head) + string(b.tail)
 }
